@@ -59,6 +59,9 @@ def run(acc, eng, seqs, k, cname, maxcd, queries=None):
     if eng in SELF_ENG:
         return acc.call(getattr(pyrepseq, eng), list(seqs), k, **kw)
     if eng == "symdel2":
+        if tuple(queries) == tuple(seqs):
+            x = list(seqs)      # the very same object on both sides
+            return acc.call(pyrepseq.symdel, x, k, seqs2=x, **kw)
         return acc.call(pyrepseq.symdel, list(seqs), k, seqs2=list(queries), **kw)
     if eng == "SymdelDB":
         return acc.call(lambda: SymdelDB(list(seqs), k).lookup(list(queries), **kw))
@@ -208,6 +211,7 @@ def check_case(case, acc):
                     if eng == "LookupDB" and k > 1:
                         continue
                     _cmp(acc, case, eng, seqs, k, cname, maxcd, seqs[::-1], True)
+                _cmp(acc, case, "symdel2", seqs, k, cname, maxcd, seqs, True)
     elif kind == "one":
         _, eng, seqs, k, cname, maxcd, queries = case
         _cmp(acc, case, eng, list(seqs), k, cname, maxcd, None if queries is None else list(queries), True)
